@@ -20,23 +20,6 @@ static Real refB(const std::vector<Real> &t, const std::vector<int> &cls, size_t
   if (cls[i + p + 1] != cls[i + 1]) r = r + (t[i + p + 1] - x) / (t[i + p + 1] - t[i + 1]) * refB(t, cls, i + 1, p - 1, gl, x);
   return r;
 }
-// k-th derivative of the stored piece on absolute interval gi at the point x (power sum about the midpoint)
-template <size_t o>
-Real piece_deriv_at(const Spline<Real, o> &s, const std::vector<Real> &g, size_t gi, size_t k, const Real &x) {
-  const auto &sup = s.getSupport();
-  size_t st = sup.getStartIndex(), en = sup.getEndIndex();
-  if (en < st + 2 || gi < st || gi + 1 >= en) return Real(0);
-  Real xm = (g[gi] + g[gi + 1]) / Real(2), dx = x - xm, r(0);
-  const auto &c = s.getCoefficients().at(gi - st);
-  for (size_t j = k; j <= o; j++) {
-    Real f(1), pw(1);
-    for (size_t q = 0; q < k; q++) f = f * Real((long long)(j - q));
-    for (size_t q = 0; q < j - k; q++) pw = pw * dx;
-    r = r + c[j] * f * pw;
-  }
-  return r;
-}
-
 template <size_t p>
 void gen_case(std::vector<size_t> mult) {
   auto &E = Engine::get();
